@@ -339,6 +339,8 @@ def cmd_canary(prop, name, tier, vseed, max_runs, wall):
     eng = load_engine(prop)
     can = eng.CANARIES[name]
     can['apply']()
+    known, _ = load_known(prop)
+    known_sigs = {k['sig'] for k in known}
     t0 = time.time()
     ctx = multiprocessing.get_context('fork')
     nproc = int(os.environ.get('VERIF_PROCS', os.cpu_count() or 4))
@@ -357,8 +359,9 @@ def cmd_canary(prop, name, tier, vseed, max_runs, wall):
                 runs += 1
                 if o.get('harness_error'):
                     continue
-                if o['violations'] and found is None:
-                    found = (o['i'], o['violations'][0]['sig'], time.time() - t0, runs)
+                vs = [v for v in o['violations'] if v['sig'] not in known_sigs]
+                if vs and found is None:
+                    found = (o['i'], vs[0]['sig'], time.time() - t0, runs)
             if found or time.time() - t0 > wall:
                 for g in futs:
                     g.cancel()
